@@ -38,6 +38,7 @@ CONSTANTS NV,            \* number of variables (labels 0 .. NV-1)
           MaxNodes,      \* exploration bound: calls are issued while the store has at most this many nodes
           MaxCache,      \* ... and the cache at most this many entries (cache-everything grows with the history)
           Ops,           \* subset of {"ite", "and", "or", "xor", "iff", "cond", "exists", "compose"}
+          Cnfs,          \* the CNFs (sequences of clauses, literals +-(v+1)) offered to compile_cnf when "cnf" \in Ops
           GetIgnoresCompl,   \* regression switch: a hit on a complemented standard triple is returned un-negated
           GetIgnoresKey      \* regression switch: a hit compares the cell only, not the key stored in it
 
@@ -183,6 +184,43 @@ ComposeM(m, f, v, g) ==
       a == AndM(i.m, i.r, f)
   IN ExistsM(a.m, a.r, v)
 
+(* ---- compile_cnf as coded (src/builder/bdd/builder.rs): stored clauses (sorted by label) are ordered by an insertion sort     *)
+(* (slices of <= 20 elements) whose key is the level of the clause's LAST literal - the `max_by` in the comparator never answers *)
+(* Greater, so it returns the last element whatever the order is; named deviation LastLiteralKey, harmless for the function -,   *)
+(* every clause is folded with `or` starting from its first literal (which is OR-ed in a second time), and the clause diagrams   *)
+(* are conjoined by the balanced recursion collapse_clauses. The whole compilation runs on the machine's store and cache.        *)
+AbsL(x) == IF x < 0 THEN 0 - x ELSE x
+LitPtr(x) == IF x > 0 THEN <<0, x - 1, F, T>> ELSE <<1, AbsL(x) - 1, F, T>>
+SortKey(c) == Level(AbsL(c[Len(c)]) - 1)
+RECURSIVE InsertLeft(_, _), ISort(_, _)
+InsertLeft(v, j) ==
+  IF j > 1 /\ SortKey(v[j]) < SortKey(v[j - 1])
+  THEN InsertLeft([v EXCEPT ![j] = v[j - 1], ![j - 1] = v[j]], j - 1) ELSE v
+ISort(v, i) == IF i > Len(v) THEN v ELSE ISort(InsertLeft(v, i), i + 1)
+RECURSIVE OrFold(_, _, _)
+OrFold(m, acc, lits) ==
+  IF lits = << >> THEN [r |-> acc, m |-> m]
+  ELSE LET v == VarM(m, AbsL(Head(lits)) - 1)
+           o == OrM(v.m, acc, LitPtr(Head(lits)))
+       IN OrFold(o.m, o.r, Tail(lits))
+ClauseM(m, c) == OrFold(VarM(m, AbsL(c[1]) - 1).m, LitPtr(c[1]), c)
+RECURSIVE ClausesM(_, _, _)
+ClausesM(m, cs, acc) ==
+  IF cs = << >> THEN [rs |-> acc, m |-> m]
+  ELSE LET c == ClauseM(m, Head(cs)) IN ClausesM(c.m, Tail(cs), Append(acc, c.r))
+RECURSIVE Collapse(_, _)
+Collapse(m, vec) ==
+  IF Len(vec) = 1 THEN [r |-> vec[1], m |-> m]
+  ELSE LET k == Len(vec) \div 2
+           l == Collapse(m, SubSeq(vec, 1, k))
+           r == Collapse(l.m, SubSeq(vec, k + 1, Len(vec)))
+       IN AndM(r.m, l.r, r.r)
+CompileCnfM(m, cnf) ==
+  IF cnf = << >> THEN [r |-> T, m |-> m]
+  ELSE IF \E i \in 1 .. Len(cnf) : cnf[i] = << >> THEN [r |-> F, m |-> m]
+  ELSE LET cl == ClausesM(m, ISort(cnf, 2), << >>) IN Collapse(cl.m, cl.rs)
+SCnf(cnf) == {a \in Assign : \A i \in 1 .. Len(cnf) : \E j \in 1 .. Len(cnf[i]) : (cnf[i][j] > 0) = Bit(a, AbsL(cnf[i][j]) - 1)}
+
 (* ---- the machine ---- *)
 Ptrs == {T, F} \cup tbl \cup {Neg(n) : n \in tbl}
 M == [t |-> tbl, c |-> cache, n |-> 0]
@@ -202,6 +240,7 @@ Next ==
      \/ "iff" \in Ops /\ \E f, g \in Ptrs : Commit(IffM(M, f, g), SIff(Den(f), Den(g)))
      \/ "cond" \in Ops /\ \E f \in Ptrs, v \in 0 .. (NV - 1), b \in BOOLEAN : Commit(Condition(M, f, v, b), SCond(Den(f), v, b))
      \/ "exists" \in Ops /\ \E f \in Ptrs, v \in 0 .. (NV - 1) : Commit(ExistsM(M, f, v), SExists(Den(f), v))
+     \/ "cnf" \in Ops /\ \E c \in Cnfs : Commit(CompileCnfM(M, c), SCnf(c))
      \/ "compose" \in Ops /\ \E f, g \in Ptrs, v \in 0 .. (NV - 1) :
           Commit(ComposeM(M, f, v, g), SExists(SIff(SLit(v), Den(g)) \cap Den(f), v))
 Spec == Init /\ [][Next]_vars
